@@ -197,7 +197,9 @@ class BuildDirector(SectionLineParser):
         - compute volume from template if it is not defined yet
         - store coordinates as vectors from center of geometry
         """
-        if previous_section == ["template", "bonds"]:
+        # a template is complete once its section ends; one-atom
+        # residues have an atoms but no bonds directive
+        if self.current_template is not None and "template" in ended_section:
             coords = nx.get_node_attributes(self.current_template, "position")
             # if the volume is not defined yet compute the volume, this still
             # can be overwritten by an explicit volume directive later
